@@ -21,7 +21,9 @@ EXPLANATION = (
     "along the key path and a fresh (deep copied) or immutable update at the last key, returns the unpacked data; "
     "DeleteContext's only destructive operations are `del subcont[key]` / clear for the empty key and it returns its "
     "input; (e) format_update_with formats before it touches d, and touches d only through "
-    "update_recursively(d, str_to_dict(key, ...)).  Does not decide agreement of the three notations on values.")
+    "update_recursively(d, str_to_dict(key, ...)); (f) the function format_context returns changes nothing it captured from the "
+    "enclosing call; (g) the presence of an optional value/default that is also used as data is decided by the module's private "
+    "sentinel, never by `is None` or truthiness (None is a context value).  Does not decide agreement of the three notations on values.")
 RULES = {
     "C08-a": "GUARD: dictionary operations on values reached by descending into a context are dominated by isinstance(., dict)",
     "C08-b": "GUARD: [-1]/[0] of a key list is dominated by a non-emptiness test or a constructor check",
